@@ -505,3 +505,24 @@ package contractcourt
 //@   site call WipeHistory: assert called(MarkChanFullyClosed) && ret(MarkChanFullyClosed) == nil
 //@   site call MarkChanFullyClosed: assert arg(1) == addr(chanPoint)
 //@   site call Stop nth 0: assert called(MarkChanFullyClosed) && ret(MarkChanFullyClosed) == nil
+//@
+//@ // ---- a spend of a revoked HTLC output that is not our own revocation spend moves the output to the second level, for all four HTLC
+//@ // ---- revoke witness types (segwit-v0 and taproot, offered and accepted): such an output is marked terminal only if the spend WAS
+//@ // ---- checked and was ours (or the check failed)
+//@ func updateBreachInfo
+//@   props C04
+//@   loop * havoc
+//@   let wt = breachedOutput.witnessType
+//@   site mapupdate doneOutputs: assert (wt == input.HtlcAcceptedRevoke || wt == input.HtlcOfferedRevoke ||
+//@        wt == input.TaprootHtlcAcceptedRevoke || wt == input.TaprootHtlcOfferedRevoke) ==>
+//@        (retn(IsHtlcSpendRevoke, 1) != nil || retn(IsHtlcSpendRevoke, 0))
+//@   site call IsHtlcSpendRevoke: assert arg(1) == addr(breachedOutput.signDesc)
+//@   site call convertToSecondLevelRevoke: assert arg(0) == breachedOutput && arg(1) == breachInfo && retn(IsHtlcSpendRevoke, 1) == nil && !retn(IsHtlcSpendRevoke, 0)
+//@   site call convertToSecondLevelRevoke as spend-details-present: domain arg(2) != nil
+//@
+//@ // ---- whether the breached channel is a taproot channel is read off whichever commitment output exists: ours, or - when ours was
+//@ // ---- trimmed - the counterparty's
+//@ func newRetributionInfo$1
+//@   props C04
+//@   site call IsPayToTaproot nth 0: assert breachInfo.LocalOutputSignDesc != nil && arg(0) == breachInfo.LocalOutputSignDesc.Output.PkScript
+//@   site call IsPayToTaproot nth 1: assert breachInfo.LocalOutputSignDesc == nil && arg(0) == breachInfo.RemoteOutputSignDesc.Output.PkScript
